@@ -70,4 +70,5 @@ def acc_jobs(tier):
 
 def jobs(tier):
     return (acc_jobs(tier) + common.add_samples_jobs(tier, ['C02']) +
-            common.add_bound_jobs(tier, ['C02']))
+            common.add_bound_jobs(tier, ['C02']) +
+            common.run_jobs(tier, ['C02'], which=('end', 'empty', 'explored')))
